@@ -142,6 +142,81 @@ Section Verify.
     pose proof (size_nat_bound _ (length D - 1) eq_refl). lia.
   Qed.
 
+  (** a verifying audit path is the sibling list (or a collision is exhibited) *)
+  Lemma audit_loop_unique d : forall f L i calc path r rest,
+    L <> [] -> N.size_nat (N.of_nat (length L - 1)) = f -> i < length L ->
+    audit_loop f calc (N.of_nat i) (N.of_nat (length L - 1)) path = Some (r, rest) ->
+    ups f L = [r] ->
+    collision \/ (calc = nth i L d /\ path = path_bu T hc d f i L ++ rest).
+  Proof.
+    induction f as [|f IH]; intros L i calc path r rest Hne Hf Hi Hrun Htop.
+    - apply size_nat_0 in Hf. simpl in Hrun. inversion Hrun; subst.
+      simpl in Htop. destruct L as [|x [|y l]]; simpl in *; try congruence; try lia.
+      inversion Htop. subst. assert (i = 0) by lia. subst. right; split; reflexivity.
+    - pose proof (size_nat_S _ _ Hf) as [Hl0 Hf'].
+      assert (Hlen : 2 <= length L) by lia.
+      cbn [Merkle.audit_loop] in Hrun.
+      destruct path as [|p rest0]; [discriminate|].
+      rewrite Nodd_of_nat, Nltb_of_nat, !Ndiv2_of_nat in Hrun.
+      rewrite Ndiv2_of_nat in Hf'.
+      assert (Hup : up L <> []) by (rewrite up_nil_iff; exact Hne).
+      rewrite <- (up_last_index L Hne) in Hrun, Hf'.
+      assert (Hi' : i / 2 < length (up L)) by (rewrite up_length; lia).
+      cbn [MerkleSpec.ups] in Htop. cbn [path_bu]. unfold sib.
+      odd_cases i.
+      + destruct (IH _ _ _ _ _ _ Hup Hf' Hi' Hrun Htop) as [C|[E Ep]]; [left; exact C|].
+        rewrite (up_nth_pair T hc d L (i / 2)) in E by lia.
+        apply hc_inj in E. destruct E as [C|[Ea Eb]]; [left; exact C|].
+        right. split.
+        * rewrite Eb. f_equal. lia.
+        * cbn [app]. rewrite Ep, Ea. f_equal. f_equal. lia.
+      + destruct (Nat.ltb_spec i (length L - 1)) as [Hlt|Hge].
+        * destruct (IH _ _ _ _ _ _ Hup Hf' Hi' Hrun Htop) as [C|[E Ep]]; [left; exact C|].
+          rewrite (up_nth_pair T hc d L (i / 2)) in E by lia.
+          apply hc_inj in E. destruct E as [C|[Ea Eb]]; [left; exact C|].
+          right. split.
+          -- rewrite Ea. f_equal. lia.
+          -- cbn [app]. rewrite Ep, Eb. f_equal. f_equal. lia.
+        * destruct (IH _ _ _ _ _ _ Hup Hf' Hi' Hrun Htop) as [C|[E Ep]]; [left; exact C|].
+          rewrite (up_nth_last T hc d L (i / 2)) in E by lia.
+          right. split.
+          -- rewrite E. f_equal. lia.
+          -- cbn [app]. exact Ep.
+  Qed.
+
+  Theorem incl_unique_lists d (D : list T) (leaf : T) (idx : N) (proof : list T) :
+    verify_leaf_hash_inclusion T teqb hc leaf idx proof (mth D) (N.of_nat (length D)) = VOk ->
+    collision \/ (leaf = nth (N.to_nat idx) D d /\ proof = rfc_path T hc hempty (N.to_nat idx) D).
+  Proof.
+    unfold verify_leaf_hash_inclusion, root_from_audit_path.
+    destruct (N.leb_spec (N.of_nat (length D)) idx) as [|Hidx]; [discriminate|].
+    destruct (Merkle.audit_loop _ _ _ _ _ _ _) as [[h rest]|] eqn:Hrun; [|discriminate].
+    destruct rest; [|discriminate].
+    destruct (teqb h (mth D)) eqn:Eh; [|discriminate]. intros _.
+    apply teqb_spec in Eh. subst h.
+    assert (Hne : D <> []) by (destruct D; simpl in *; [lia|congruence]).
+    replace (N.of_nat (length D) - 1)%N with (N.of_nat (length D - 1)) in Hrun by lia.
+    rewrite <- (N2Nat.id idx) in Hrun.
+    pose proof (size_nat_bound _ (length D - 1) eq_refl) as Hb.
+    destruct (audit_loop_unique d _ D (N.to_nat idx) _ _ _ _ Hne eq_refl ltac:(lia) Hrun) as [C|[E1 E2]].
+    - apply ups_mth; [exact Hne|lia].
+    - left; exact C.
+    - right. split; [exact E1|]. rewrite E2, app_nil_r. symmetry.
+      apply (rfc_path_bu T hc hempty d (length D)); lia.
+  Qed.
+
+  (** the root is determined by the other inputs *)
+  Lemma incl_root_determined leaf idx proof r1 r2 size :
+    verify_leaf_hash_inclusion T teqb hc leaf idx proof r1 size = VOk ->
+    verify_leaf_hash_inclusion T teqb hc leaf idx proof r2 size = VOk -> r1 = r2.
+  Proof.
+    unfold verify_leaf_hash_inclusion, root_from_audit_path.
+    destruct (size <=? idx)%N; [discriminate|].
+    destruct (Merkle.audit_loop _ _ _ _ _ _ _) as [[h [|x rest]]|]; try discriminate.
+    destruct (teqb h r1) eqn:E1; [|discriminate]. destruct (teqb h r2) eqn:E2; [|discriminate].
+    intros _ _. apply teqb_spec in E1. apply teqb_spec in E2. congruence.
+  Qed.
+
   (** * Inclusion: completeness on the bottom-up sibling list *)
   Lemma path_bu_nonempty d : forall f i L, N.size_nat (N.of_nat (length L - 1)) = f ->
     0 < i -> i <= length L - 1 -> path_bu T hc d f i L <> [].
